@@ -156,10 +156,10 @@ func checkC09(c *Ctx) {
 	c.notDecided = "soundness of the pairing equations and proofs; fewer than t shares; cross-session substitution"
 	c.Assume("mathlib: methods with results return newly allocated values; pointer-receiver methods without results modify their receiver only")
 	const M1, G1, V1, V2, D1 = "C09.M1", "C09.G1", "C09.V1", "C09.V2", "C09.D1"
-	c.Rule(M1, "mutator receivers are fresh; no stores into inputs/state on verification paths", 25)
-	c.Rule(G1, "share used only after the request proof verified", 2)
-	c.Rule(V1, "Fiat–Shamir operands bound", 20)
-	c.Rule(V2, "errors of inner checks and point parsing are branched on and returned", 20)
+	c.Rule(M1, "mutator receivers are fresh; no stores into inputs/state on verification paths", 12)
+	c.Rule(G1, "share used only after the request proof verified", 1)
+	c.Rule(V1, "Fiat–Shamir operands bound", 10)
+	c.Rule(V2, "errors of inner checks and point parsing are branched on and returned", 10)
 	c.Rule(D1, "BLS aggregation uses the party→point table", 1)
 
 	type entrySpec struct{ recv, name string }
@@ -675,7 +675,6 @@ func dependsOnParamFedBy(sl *Slicer, s1, s2 map[ssa.Value]bool, f, caller *ssa.F
 	return false
 }
 
-
 // excludedOracleOperand: verifier parameters deliberately not hashed (frozen, by position):
 // BlindCorrectFormProof.Verify's last parameter (gs) is a locally derived public parameter.
 func excludedOracleOperand(verifier *ssa.Function, idx int) bool {
@@ -685,7 +684,6 @@ func excludedOracleOperand(verifier *ssa.Function, idx int) bool {
 	return false
 }
 
-
 func isGroupType(t types.Type) bool {
 	if sl, ok := t.Underlying().(*types.Slice); ok {
 		t = sl.Elem()
@@ -693,7 +691,6 @@ func isGroupType(t types.Type) bool {
 	n := namedOf(t)
 	return n != nil && n.Obj().Pkg() != nil && n.Obj().Pkg().Path() == PkgMathlib && (n.Obj().Name() == "G1" || n.Obj().Name() == "G2")
 }
-
 
 // onlyLenUses: every (transitive) use of v is a len() — the value itself is never computed with.
 func onlyLenUses(v ssa.Value, depth int) bool {
